@@ -99,43 +99,45 @@ def confirm (c : Client) (ce tick : Nat) : Client :=
   | some ent => { c with world := aset c.world ce { ent with hist := some tick } }
   | none => c
 
+/-- `apply_entity_mapping` -/
+def applyMapping (c : Client) (m : Nat × Nat) : Client :=
+  match aget c.world m.2 with
+  | some ent => mapInsert { c with world := aset c.world m.2 { ent with marked := true } } m.1 m.2
+  | none => c                      -- the pre-spawned entity is gone: the mapping is ignored
+
+/-- `apply_despawn` -/
+def applyDespawn (c : Client) (se : Nat) : Client :=
+  match mapRemove c se with
+  | (c', some ce) => { c' with world := adel c'.world ce }
+  | (c', none) => c'
+
+/-- `apply_removals` for one record; `none` = an error that drops the rest of the message -/
+def applyRemoval (tick : Nat) (c : Client) (r : Nat × List Nat) : Option Client :=
+  match targetEntity c r.1 false with
+  | .ok (c', ce) =>
+    let c'' := confirm c' ce tick
+    match aget c''.world ce with
+    | some ent => some { c'' with world := aset c''.world ce { ent with comps := ent.comps.filter fun (k, _) => !r.2.contains k } }
+    | none => some c''
+  | _ => none
+
+/-- `apply_changes` for one record -/
+def applyChange (tick : Nat) (c : Client) (m : MsgEnt) : Option Client :=
+  match targetEntity c m.ent true with
+  | .ok (c', ce) => some (writeComps (confirm c' ce tick) ce m.comps)
+  | _ => none
+
+/-- a section whose records can fail: the first failure drops everything after it -/
+def foldOpt {α : Type} (f : Client → α → Option Client) (st : Client × Bool) (xs : List α) : Client × Bool :=
+  xs.foldl (fun st x => if st.2 then st else match f st.1 x with | some c => (c, false) | none => (st.1, true)) st
+
 /-- `apply_update_message`; an `Err` in a section stops the message (the tick stays set). -/
-def applyUpdate (c : Client) (u : Update) : Client := Id.run do
-  let mut c := { c with updateTick := u.tick }
-  -- MAPPINGS
-  for (se, ce) in u.mappings do
-    match aget c.world ce with
-    | some ent =>
-      c := { c with world := aset c.world ce { ent with marked := true } }
-      c := mapInsert c se ce
-    | none => pure ()
-  -- DESPAWNS
-  for se in u.despawns do
-    let (c', ce) := mapRemove c se
-    c := c'
-    match ce with
-    | some ce => c := { c with world := adel c.world ce }
-    | none => pure ()
-  -- REMOVALS
-  let mut failed := false
-  for (se, ks) in u.removals do
-    if !failed then
-      match targetEntity c se false with
-      | .ok (c', ce) =>
-        c := confirm c' ce u.tick
-        match aget c.world ce with
-        | some ent => c := { c with world := aset c.world ce { ent with comps := ent.comps.filter fun (k, _) => !ks.contains k } }
-        | none => pure ()
-      | _ => failed := true
-  -- CHANGES
-  for m in u.changes do
-    if !failed then
-      match targetEntity c m.ent true with
-      | .ok (c', ce) =>
-        c := confirm c' ce u.tick
-        c := writeComps c ce m.comps
-      | _ => failed := true
-  return c
+def applyUpdate (c : Client) (u : Update) : Client :=
+  let c := { c with updateTick := u.tick }
+  let c := u.mappings.foldl applyMapping c
+  let c := u.despawns.foldl applyDespawn c
+  let st := foldOpt (applyRemoval u.tick) (c, false) u.removals
+  (foldOpt (applyChange u.tick) st u.changes).1
 
 /-- `BufferedMutations::insert`: before the first message with a tick that is not newer -/
 def bufferInsert (l : List Mutate) (m : Mutate) : List Mutate :=
